@@ -22,8 +22,23 @@ inductive Objs where
   | cons : Obj → Objs → Objs
 end
 
+/-- the objects a header alone determines -/
+inductive Scalar where
+  | nil : Scalar
+  | bool (b : Bool)
+  | int (i : Int)
+  | f32 (bits : Nat)
+  | f64 (bits : Nat)
+
+def Scalar.toObj : Scalar → Obj
+  | .nil => .nil
+  | .bool b => .bool b
+  | .int i => .int i
+  | .f32 b => .f32 b
+  | .f64 b => .f64 b
+
 inductive Hdr where
-  | scalar (o : Obj)
+  | scalar (o : Scalar)
   | blob (k : BlobKind) (n : Nat)
   | ext (n : Nat)
   | arr (n : Nat)
@@ -115,7 +130,7 @@ def parseF : Nat → Bytes → Option (Obj × Bytes)
   | f+1, b =>
     match header b with
     | none => none
-    | some (.scalar o, r) => some (o, r)
+    | some (.scalar o, r) => some (o.toObj, r)
     | some (.blob k n, r) =>
       if r.length < n then none
       else some (blobObj k (r.take n), r.drop n)
